@@ -229,6 +229,41 @@ func TestVerifC17Vec(t *testing.T) {
 		}
 		scripted("random", lens, stream, sc)
 	}
+	// gated writes: the first segment fills buffer 0 and a strict prefix of buffer 1
+	ngate := 16
+	if thorough {
+		ngate = 120
+	}
+	for i := 0; i < ngate; i++ {
+		lens := []int{1 + r.Intn(20), 4 + r.Intn(60)}
+		if i%4 == 3 {
+			lens = append(lens, 1+r.Intn(10))
+		}
+		total := 0
+		for _, l := range lens {
+			total += l
+		}
+		stream := make([]byte, total)
+		r.Read(stream)
+		first := lens[0] + 1 + r.Intn(lens[1]-1)
+		a, b, err := vh17SocketPair()
+		if err != nil {
+			t.Fatal(err)
+		}
+		go func() {
+			a.Write(stream[:first])
+			time.Sleep(3 * time.Millisecond)
+			a.Write(stream[first:])
+		}()
+		b.SetReadDeadline(time.Now().Add(10 * time.Second))
+		bufs := vh17Mk(lens)
+		orig := make([][]byte, len(bufs))
+		copy(orig, bufs)
+		n, code := vh17ReadFrom(bufs, b)
+		a.Close()
+		b.Close()
+		emit(vh17Obs{Kind: "vec", What: "socket-gated", Mode: 1, Bufs: lens, Stream: vh17Ints(stream), N: n, Err: code, Contents: vh17Contents(orig), Chunks: []int{first, total - first}})
+	}
 	// real socket pair: recvmsg path
 	nsock := 60
 	if thorough {
